@@ -32,7 +32,13 @@ type Scenario struct {
 
 const Unbounded = 1 << 20
 
+type succKey struct {
+	k core.H
+	t int8
+}
+
 type point struct {
+	key        core.H
 	enabled    []int
 	chosen     int
 	curEnabled bool
@@ -90,6 +96,8 @@ type Explorer struct {
 	sample   string
 	maxExec  int64
 	probed   map[core.H]struct{} // states already probed at a smaller bound
+	succ     map[succKey]core.H  // (state, thread chosen) -> next state, learnt from executions (deterministic)
+	skipped  int64
 }
 
 type runResult struct {
@@ -108,8 +116,14 @@ func (e *Explorer) run(choices []int, probeAt int, follow bool) *runResult {
 	x.RaceCheck = !e.sc.NoRace
 	rr := &runResult{x: x}
 	pre := 0
+	var prevKey core.H
+	prevT := -1
 	x.Strategy = func(p *core.PointInfo) int {
 		i := len(rr.points)
+		if prevT >= 0 && e.succ != nil {
+			e.succ[succKey{prevKey, int8(prevT)}] = p.Key
+		}
+		prevT = -1
 		if probeAt >= 0 && i == probeAt {
 			x.Sequentially(func() {
 				if f := e.sc.MutProbe(x, rr.ctx); f != nil {
@@ -156,10 +170,11 @@ func (e *Explorer) run(choices []int, probeAt int, follow bool) *runResult {
 				}
 			}
 		}
-		rr.points = append(rr.points, point{enabled: append([]int(nil), p.Enabled...), chosen: idx, curEnabled: p.CurEnabled, pre: pre})
+		rr.points = append(rr.points, point{key: p.Key, enabled: append([]int(nil), p.Enabled...), chosen: idx, curEnabled: p.CurEnabled, pre: pre})
 		if p.CurEnabled && idx != 0 {
 			pre++
 		}
+		prevKey, prevT = p.Key, p.Enabled[idx]
 		return idx
 	}
 	core.X = x
@@ -285,6 +300,14 @@ func (e *Explorer) explore(prefix []int) {
 			if cost > e.bound {
 				break
 			}
+			if k2, ok := e.succ[succKey{p.key, int8(p.enabled[alt])}]; ok {
+				// the successor state is known from an earlier execution: if it was already explored
+				// with at least this much budget, running the schedule again would be pruned at once
+				if old, seen := e.visited[k2]; seen && old >= int32(e.bound-cost) {
+					e.skipped++
+					continue
+				}
+			}
 			np := make([]int, i+1)
 			copy(np, rr.choices(i))
 			np[i] = alt
@@ -384,10 +407,11 @@ func Explore(sc Scenario, bound int, deadline time.Time) Result {
 		bounds = append(bounds, bound)
 	}
 	probed := map[core.H]struct{}{}
+	succ := map[succKey]core.H{}
 	hist := map[string]struct{}{}
 	outcomes := map[string]struct{}{}
 	for _, b := range bounds {
-		e := &Explorer{sc: sc, bound: b, visited: map[core.H]int32{}, hist: hist, outcomes: outcomes, deadline: deadline, probed: probed}
+		e := &Explorer{sc: sc, bound: b, visited: map[core.H]int32{}, hist: hist, outcomes: outcomes, deadline: deadline, probed: probed, succ: succ}
 		e.stat.Bound = b
 		e.explore(nil)
 		e.stat.States = len(e.visited)
